@@ -4,7 +4,7 @@ from ..areas import sched as S
 from ..areas import schedt as T
 
 
-class C04(S.SchedCheck):
+class C04(T.SeqCases, S.SchedCheck):
     pid = "C04"
     props_mod = "HioModel.Props.C04"
     design_ref = "DESIGN.md §5 C04, Appendix A.2, §7 F46"
@@ -18,8 +18,8 @@ class C04(S.SchedCheck):
                   "depth (op-free, fault-free) whose leaf scripts satisfy guard G04 (positive* asap*), the nested run and the run of its flattening have the same kept-event "
                   "sequence (every leaf event incl. enter order, recur steps, forced exits, done flags), done, final tyme, cycle count, raised; flatten_transparent_doer_partial spells out resumption tymes and final done flag per doer; flatL_transparent_partial is the same for the function Spec.flatL the driver uses.  regroup_transparent_partial: "
                   "any two regroupings of the same flat program agree.  The unguarded statement is FALSE on the model: flatten_transparent_fails_at_asap_then_positive (decided "
-                  "witness of pre-finding F46), replayed on the real code in corpus(); recorded as known finding C04-K1.  Transparent groups inside a DoDoer with tock > 0 are "
-                  "covered by correspondence and oracle only (they hit the related known finding C04-K2).")
+                  "witness of pre-finding F46), replayed on the real code in corpus(); recorded as known finding C04-K1.  flatten_transparent_hetero_partial extends the theorem to forests with KEPT DoDoers whose tock is 0 (always) or the scheduler's tock, "
+                  "transparent groups beside/inside/around them; for a kept DoDoer with another tock the statement is false: transparent_under_lagging_dodoer_fails (decided; known finding C04-K2).")
     level_note = "PARTIAL under G04.  The oracle compares two runs of the real code; the model is used only by the correspondence."
     trusted_base = S.SchedCheck.trusted_base + [
         "oracle harness/areas/schedt.py: run_program on the nested program and on flatten_specs(program); leaf_view / c04_clauses compare them"]
@@ -27,10 +27,10 @@ class C04(S.SchedCheck):
                    "IEEE-754 doubles satisfy LawfulTyme on the values used (no Lean instance)"]
     rule = ("random op-free fault-free forests (leaves, optionally DoDoers with tock > 0) + random regroupings of consecutive siblings under DoDoer(tock=0): every level, nested (depth <= 4), "
             "empty groups, groups at every position; scripts positive* asap* / asap-then-positive / mixed; limits incl. non-multiples; starts != 0; non-dyadic tocks.  "
-            "thorough: every single and double regrouping of 4 fixed 3..4-leaf programs.  non-trivial = the nested program has a transparent group holding >= 1 live leaf and >= 8 recur events; distinct by request line")
+            "30% of the cases are SECOND runs (the same nested / flat doer objects first run under another Doist with another start tyme, cut by a limit, then under a fresh Doist).  thorough: every single and double regrouping of 4 fixed 3..4-leaf programs.  non-trivial = the nested program has a transparent group holding >= 1 live leaf and >= 8 recur events; distinct by request line")
 
     def corpus(self):
-        return [c for c in T.TIMING_CORPUS]
+        return list(T.TIMING_CORPUS) + self.seq_corpus(T.TIMING_CORPUS)
 
     def exhaustive(self, tier):
         if tier != "thorough":
@@ -48,37 +48,45 @@ class C04(S.SchedCheck):
         return cs, "every single regrouping (any run of consecutive siblings incl. empty, any position) and every double regrouping (side by side, around, inside) of 4 fixed programs of 3-4 leaves"
 
     def generate(self, rng, n, tier):
-        made = 0
-        while made < n:
-            kind = rng.choice(["nested", "nested", "g04", "g04", "g04", "f46", "hetero"])
-            c = T.gen_timed(rng, kind)
-            yield c
-            made += 1
-            if rng.random() < 0.3:
-                for c2 in T.regroupings_of(c, rng, 2):
-                    yield c2
-                    made += 1
+        def plain():
+            made = 0
+            while made < n:
+                kind = rng.choice(["nested", "nested", "g04", "g04", "g04", "f46", "hetero"])
+                c = T.gen_timed(rng, kind)
+                yield c
+                made += 1
+                if rng.random() < 0.3:
+                    for c2 in T.regroupings_of(c, rng, 2):
+                        yield c2
+                        made += 1
+        return self.with_seq(rng, plain())
 
     def request(self, case):
-        return T.request_head("flatpair", case)
+        return T.request_head("flatpair", self.base(case))
 
     def run_impl(self, case):
         T.settle_heap()
+        if case[0] == "seq":
+            # nested objects and flat objects each go through BOTH Doists; the second runs are compared
+            return T.PairObs(T.run_second(case[2], case[1]), T.run_second(T.flatten_case(case[2]), case[1]))
         a = S.run_program(case)
         b = S.run_program(T.flatten_case(case))
         return T.PairObs(a, b)
 
     def views(self, case, obs):
+        case = self.base(case)
         drop = set(T.spliced_ids(case[5]))
         return T.leaf_view(case, obs.a, drop), T.leaf_view(T.flatten_case(case), obs.b, drop)
 
     def nontrivial(self, case, obs):
+        case = self.base(case)
         spec, par, pools, kids = S.spec_index(case)
         has = any(s[0] == "leaf" and par[i] != 0 and T.transparent(spec[par[i]]) and not isinstance(s[3], tuple) for i, s in spec.items())
         return has and sum(1 for e in obs.a["trace"] if e[1] == "recur") >= 8
 
     def features(self, case, obs):
         f = super().features(case, obs)
+        case0, case = case, self.base(case)
         sp = [s for s, _, _ in S.all_specs(case)]
         tg = [s for s in sp if T.transparent(s)]
         f.append("transparent-groups~%d" % min(len(tg), 6))
@@ -88,19 +96,19 @@ class C04(S.SchedCheck):
             f.append("transparent-in-transparent")
         if obs.a["done"] is False:
             f.append("stopped-by-limit")
-        vn, vf = self.views(case, obs)
-        up = T.first_divergence_tyme(vn, vf)
         if T.g04_break_reached(case, obs.a, None):
             f.append("G04-broken-reached")
         return f
 
     def oracle(self, case, obs):
+        case = self.base(case)
         if not (T.op_free(case) and T.fault_free(case)):
             return []
         vn, vf = self.views(case, obs)
         return T.c04_clauses(vn, vf)
 
     def known(self, case, obs, clauses):
+        case = self.base(case)
         vn, vf = self.views(case, obs)
         up = T.first_divergence_tyme(vn, vf)
         if up is None:
